@@ -170,6 +170,7 @@ func isSingularMessage(fd protoreflect.FieldDescriptor) bool {
 
 func (p *path) alive() bool {
 	return len(p.methods) != 0 ||
+		p.methodAll != nil ||
 		len(p.variables) != 0 ||
 		len(p.segments) != 0
 }
@@ -202,35 +203,41 @@ func (p *path) clone() *path {
 	return pc
 }
 
-// delRule deletes the HTTP rule to the path.
+// delRule deletes all the HTTP rules of the method from the path.
 func (p *path) delRule(name string) bool {
+	deleted := false
 	for k, s := range p.segments {
 		if ok := s.delRule(name); ok {
+			deleted = true
 			if !s.alive() {
 				delete(p.segments, k)
 			}
-			return ok
 		}
 	}
 
-	for i, v := range p.variables {
+	for i := len(p.variables) - 1; i >= 0; i-- {
+		v := p.variables[i]
 		if ok := v.next.delRule(name); ok {
+			deleted = true
 			if !v.next.alive() {
 				p.variables = append(
 					p.variables[:i], p.variables[i+1:]...,
 				)
 			}
-			return ok
 		}
 	}
 
 	for k, m := range p.methods {
 		if m.name == name {
 			delete(p.methods, k)
-			return true
+			deleted = true
 		}
 	}
-	return false
+	if m := p.methodAll; m != nil && m.name == name {
+		p.methodAll = nil
+		deleted = true
+	}
+	return deleted
 }
 
 // addRule adds the HTTP rule to the path.
